@@ -356,6 +356,46 @@ def oracle_multimember_tar(ctx):
                     'stdout and exit status == the extracted members named in archive order'}
 
 
+def oracle_duplicate_member_names(ctx):
+    """F33: a tar archive may hold several members under the SAME path (`tar -r` / `tar -u` append a newer copy). s4 lists
+    every member but identifies it only by `archive|path`, and each reader looks the path up again and stops at the first
+    match: both listed entries print the FIRST copy, the later copies' bytes are never printed. Oracle = the property itself:
+    the archive must print what its members print as plain files named in archive order. Signature only for this exact shape
+    (a repeated member path and the output = first copy repeated)."""
+    import io
+    import tarfile
+    fails, ev = [], 0
+    base = os.path.join(ctx.work, 'dupmember')
+    os.makedirs(base, exist_ok=True)
+    a = b''.join(b'2024-01-01 00:00:%02d first copy line %d\n' % (i, i) for i in range(5))
+    b = b''.join(b'2024-01-02 00:00:%02d SECOND copy line %d\n' % (i, i) for i in range(5))
+    for fmt, fname in ((tarfile.USTAR_FORMAT, 'ustar'), (tarfile.GNU_FORMAT, 'gnu')):
+        tpath = os.path.join(base, 'dup_%s.tar' % fname)
+        with tarfile.open(tpath, 'w', format=fmt) as tf:
+            for data in (a, b):
+                ti = tarfile.TarInfo('app.log')
+                ti.size = len(data)
+                ti.mtime = 1700000000
+                tf.addfile(ti, io.BytesIO(data))
+        plain = []
+        for i, data in enumerate((a, b)):
+            pp = os.path.join(base, 'p%d' % i, 'app.log')
+            os.makedirs(os.path.dirname(pp), exist_ok=True)
+            open(pp, 'wb').write(data)
+            plain.append(pp)
+        r0 = e2e.s4(e2e.BASE_ARGS + plain, timeout=120)[:2]
+        r1 = run(tpath)[:2]
+        ev += 2
+        if r0 != r1:
+            first_twice = r1[0] == 0 and sorted(r1[1].splitlines()) == sorted(a.splitlines() * 2)
+            fails.append({'signature': 'tar:duplicate-member-path-reads-first-copy' if first_twice else 'container:tar-differs-from-plain',
+                          'detail': f'{fname} archive with two members named app.log: rc {r1[0]} vs {r0[0]}; ' + first_diff(r1[1], r0[1]),
+                          'args': e2e.BASE_ARGS + ['dup_%s.tar' % fname], 'members': ['app.log', 'app.log']})
+    shutil.rmtree(base, ignore_errors=True)
+    return {'evaluations': ev, 'distinct_nontrivial': ev, 'failures': fails, 'samples': [],
+            'rule': 'witness of known finding F33 (two members under one path, ustar and gnu) replayed on the binary: stdout == the two copies as plain files'}
+
+
 def oracle_tar_member_names(ctx):
     """One member per archive, its PATH varied: short, nested, longer than the 100-byte ustar name field (ustar prefix split,
     GNU @LongLink, pax path=), non-ASCII (pax). Text and accounting members are read through BlockReader's tar path, journal and
@@ -420,7 +460,8 @@ def oracle(ctx):
     c = oracle_known_decoder_findings(ctx)
     d = oracle_multiblock(ctx)
     e = oracle_multimember_tar(ctx)
-    return core.merge_oracles([a, b, c, d, e, f])
+    g = oracle_duplicate_member_names(ctx)
+    return core.merge_oracles([a, b, c, d, e, f, g])
 
 
 def check(ctx):
